@@ -23,7 +23,7 @@ let rec conns n fs =
     let (post, rest) = take (one b) rest in
     let (tls, rest) = take (one c) rest in
     if one hs > 5 then failwith "hs";
-    { c_named = fl land 1 <> 0; c_pinfile = fl land 2 <> 0; c_pinload = fl land 4 <> 0; c_early = fl land 8 <> 0;
+    { c_named = fl land 1 <> 0; c_pinfile = fl land 2 <> 0; c_pinload = fl land 4 <> 0;
       c_tlsa = pairs (ints_of_hex tlsa); c_hs = n_of_int (one hs); c_verify = n_of_int (one vfy);
       c_pre = List.map bytes_of_hex pre; c_post = List.map bytes_of_hex post; c_tls = List.map bytes_of_hex tls }
     :: conns (n - 1) rest
